@@ -11,6 +11,11 @@
  *        entry  = path | mem | file | cb        (which xmp_test_module* / xmp_load_module* pair)
  *        helper = fail | ok      what a spawned helper does: exit 77 / print file "helper_payload", exit 0
  *   smix <id> <samplepath>
+ *   hist <id> <ctx instrument path|none> / step <sid> <entry> <modpath> <helper> <none|release|play|playrelease> / endhist
+ *        a HISTORY on one context: every step is one xmp_load_module* call (any entry point; the file may be a module,
+ *        not a module, undepackable, broken, missing), optionally followed by a player run and/or xmp_release_module.
+ *        Each step is logged like an op ("begin <sid> load" .. "ret <sid> load <rc>") and followed by
+ *        "state <sid> loaded|after <state > UNLOADED> <m->dirname> <m->basename>" read through the private headers.
  *   pair <id> <order> <modpath A> <instrument path A|none> <modpath B> <instrument path B|none>
  *        two threads, one context each, xmp_load_module concurrently.  The fopen interposer parks a thread that is
  *        about to open a companion file until the other thread is about to open one of its own, then both snapshot
@@ -34,6 +39,7 @@
 #include <sys/stat.h>
 #include <sys/types.h>
 #include <sys/wait.h>
+#include "common.h"	/* struct context_data: the history scenario reads m->dirname / m->basename */
 #include <xmp.h>
 #include <pthread.h>
 #include <time.h>
@@ -507,6 +513,93 @@ static void run_op(const char *id, const char *entry, char *modpath, char *ctxin
 	free(data);
 }
 
+/* ---- histories: several load attempts, through any entry point, on ONE context */
+static xmp_context hist_ctx;
+static void *hist_keep[64];		/* memory handed to _from_memory stays alive for the whole history */
+static int hist_nkeep;
+
+static void hist_state(const char *sid, const char *tag)
+{
+	struct context_data *c = (struct context_data *)hist_ctx;
+	char h1[9000], h2[9000];
+	hexstr(h1, sizeof(h1), c->m.dirname);
+	hexstr(h2, sizeof(h2), c->m.basename);
+	logf_("state %s %s %d %s %s\n", sid, tag, c->state > XMP_STATE_UNLOADED, h1, h2);
+}
+
+static void hist_end(void)
+{
+	int i;
+	if (hist_ctx) {
+		in_library = 1;
+		xmp_free_context(hist_ctx);
+		in_library = 0;
+	}
+	hist_ctx = NULL;
+	for (i = 0; i < hist_nkeep; i++)
+		free(hist_keep[i]);
+	hist_nkeep = 0;
+}
+
+static void hist_begin(char *ctxins)
+{
+	hist_end();
+	unsetenv("XMP_INSTRUMENT_PATH");
+	hist_ctx = xmp_create_context();
+	if (ctxins)
+		xmp_set_instrument_path(hist_ctx, ctxins);
+}
+
+static void hist_step(const char *sid, const char *entry, char *modpath, const char *after)
+{
+	struct xmp_callbacks cb = { cb_read, cb_seek, cb_tell, NULL };
+	struct cbfile cbf;
+	unsigned char *data = NULL;
+	long size = 0;
+	FILE *fp = NULL;
+	int rc;
+
+	if (!hist_ctx)
+		return;
+	if (strcmp(entry, "path") != 0) {
+		data = read_file(modpath, &size);
+		if (!data || hist_nkeep >= 64) {
+			logf_("skip %s cannot read module\n", sid);
+			return;
+		}
+		hist_keep[hist_nkeep++] = data;
+	}
+	if (!strcmp(entry, "file") && (fp = __real_fopen(modpath, "rb")) == NULL) {
+		logf_("skip %s cannot open module\n", sid);
+		return;
+	}
+	cbf.data = data;
+	cbf.size = size;
+	cbf.pos = 0;
+	logf_("begin %s load\n", sid);
+	in_library = 1;
+	if (!strcmp(entry, "path"))
+		rc = xmp_load_module(hist_ctx, modpath);
+	else if (!strcmp(entry, "mem"))
+		rc = xmp_load_module_from_memory(hist_ctx, data, size);
+	else if (!strcmp(entry, "file"))
+		rc = xmp_load_module_from_file(hist_ctx, fp, size);
+	else
+		rc = xmp_load_module_from_callbacks(hist_ctx, &cbf, cb);
+	in_library = 0;
+	logf_("ret %s load %d\n", sid, rc);
+	if (fp)
+		fclose(fp);
+	hist_state(sid, "loaded");
+	in_library = 1;
+	if (strstr(after, "play") && rc == 0 && xmp_start_player(hist_ctx, 8000, 0) == 0)
+		xmp_play_frame(hist_ctx);
+	if (strstr(after, "release"))
+		xmp_release_module(hist_ctx);
+	in_library = 0;
+	hist_state(sid, "after");
+}
+
 struct pair_arg {
 	int who, order;
 	const char *modpath, *ins;
@@ -611,6 +704,23 @@ int main(int argc, char **argv)
 			free(mp);
 			free(ci);
 			free(ei);
+		} else if (!strcmp(kind, "hist")) {
+			char *ci;
+			if (sscanf(line, "%*s %63s %8999s", id, a) != 2)
+				continue;
+			ci = unhex(a);
+			hist_begin(ci);
+			free(ci);
+		} else if (!strcmp(kind, "step")) {
+			char after[32], *mp;
+			if (sscanf(line, "%*s %63s %15s %8999s %15s %31s", id, entry, a, helper, after) != 5)
+				continue;
+			helper_ok = !strcmp(helper, "ok");
+			mp = unhex(a);
+			hist_step(id, entry, mp, after);
+			free(mp);
+		} else if (!strcmp(kind, "endhist")) {
+			hist_end();
 		} else if (!strcmp(kind, "pair")) {
 			char d[9000];
 			int order;
